@@ -78,12 +78,19 @@ def decomp_facts(v):
     from rules import c12
     f = v.fn(c12.FN)
     digits, touch, err = c12.digit_statements(v, f)
-    if not digits or len(digits) != 1:
+    if not digits:
         return None
     from sa import bounds
     rel = bounds.ctor_relations(v)
     roots = {sym.sym(p["n"]): p["t"] for p in f.params}
-    val = bounds.apply_relations(v, digits[0]["val"], roots, rel)
+    try:
+        one, cov, _d = c12.unify_digits(digits, sym.arrow(P(f.params[2]["n"], "tlwe_params"), "N"),
+                                        lambda t: bounds.apply_relations(v, t, roots, rel))
+    except LookupError:
+        return None
+    if cov == "refuted":
+        return None
+    val = bounds.apply_relations(v, one["val"], roots, rel)
     B = P(f.params[2]["n"], "Bgbit")
     fa = [m[0] for m, c in sym.poly_items(val) if c == 1 and len(m) == 1 and bits.field_of(m[0]) is not None]
     if len(fa) != 1:
